@@ -21,8 +21,9 @@ ASSUMPTIONS = [
     "buffersize >= 1 (0 is outside the stated domain)",
     "headers have >= 1 field; field names are text",
     "cell values from the C04 domain (no NaN, naive datetimes)",
-    "mergesort: field names distinct inside each table, key given by name and present in every table; "
-    "key=None and index keys only with identical headers; ragged rows only with missing=None",
+    "mergesort: field names distinct inside each table, named keys present in every table; presorted=True only where the "
+    "harness can sort the inputs the way the merge sees them (every key cell present when missing is not None; one shared "
+    "layout for key=None and index keys)",
 ]
 
 KEYCOL = st.one_of(gen.keyish, gen.keyish, gen.value)
@@ -190,10 +191,12 @@ def merge_case(draw, tier):
         cols = [st.sampled_from(p) for _ in hdr]
         ragged = draw(st.booleans())
         tables.append(draw(gen.table(list(hdr), cols, max_rows=maxrows, ragged=ragged)))
-    kf = draw(st.sampled_from(["k", "kj", "one-tuple", "none", "index"] if same_hdr else ["k", "kj", "one-tuple"]))
+    # key=None (lexical) and index keys refer to the layout of the OUTPUT header (that of cat()), also when the inputs
+    # order their fields differently
+    kf = draw(st.sampled_from(["k", "kj", "one-tuple", "none", "index"]))
     key = {"k": "k", "kj": ("k", "j"), "one-tuple": ("k",), "none": None}.get(kf)
     if kf == "index":
-        key = draw(st.integers(0, len(tables[0][0]) - 1))
+        key = draw(st.integers(0, 1 if not same_hdr else len(tables[0][0]) - 1))   # k and j are in every table
     any_ragged = any(len(r) != len(t[0]) for t in tables for r in t[1:])
     missing = draw(st.sampled_from([None, "M"]))
     header = None
@@ -211,7 +214,9 @@ def merge_case(draw, tier):
     return {"tables": tables, "key": key, "reverse": draw(st.booleans()), "missing": missing,
             # (presorted inputs are sorted by the harness on the raw key cells; with a non-None `missing` the key of a row too
             #  short to hold a key field becomes `missing` only after padding, so presorted then needs every key cell present)
-            "header": header, "presorted": draw(st.booleans()) and (missing is None or _keys_present(tables, key)), "buffersize": draw(gen.buffersizes(n)),
+            #  (and positional keys need inputs that share one layout, or the harness would sort them by other columns)
+            "header": header, "presorted": (draw(st.booleans()) and (missing is None or _keys_present(tables, key))
+                                           and (same_hdr or kf not in ("none", "index"))), "buffersize": draw(gen.buffersizes(n)),
             "passes": draw(st.integers(1, 2)),
             # inputs that are themselves sort views on the same key, in the same or the opposite direction
             "upstream": [draw(st.sampled_from(["none", "none", "none", "same", "opposite"])) for _ in tables]}
